@@ -29,30 +29,42 @@ def bodies_in(c, prefix):
 def rule_who_may(prog):
     out = Out("WHO-MAY")
     c = prog.lsp
-    # process::exit: per lifecycle phase (helpers the phase calls count for the phase)
-    phase_of = {}
-    for ph in ("initialization", "main", "shutdown"):
-        pb = prog.body("lsp4spl::server::phases::" + ph)
-        if pb is not None:
-            for fb in _phase_bodies(prog, pb):
-                phase_of.setdefault(fb["p"], "server::phases::" + ph)
-    sites = {}
+    # process::exit: the process is ended from inside only for `exit` without `shutdown` (status 1) - and only where everything
+    # that was queued for the client has been written: behind the join of the spawned tasks (responder, broker).  An exit call in
+    # the reader loop races the responder task: responses already produced are lost, depending on how the input was chunked.
+    n_exit = 0
     for b in c.bodies:
-        for n in hir.nodes(b["body"], "Call"):
-            if is_exit_call(n):
-                sites.setdefault(phase_of.get(b["p"], b["d"]), []).append(n)
-    expected = {"server::phases::initialization": 2, "server::phases::main": 1}
-    for fn in sorted(set(sites) | set(expected)):
-        got = len(sites.get(fn, []))
-        want = expected.get(fn, 0)
-        loc = c.loc(sites[fn][0]["sp"]) if fn in sites else ""
-        out.add(fn, "process::exit call sites = %d" % want, got == want, loc,
-                "the process may only be terminated by `exit` before/without shutdown (status 1); after shutdown the "
-                "loop is left so that queued responses are flushed (found %d call(s))" % got, ("exit",))
-        for n in sites.get(fn, []):
+        if "/tests" in c.file_of(b["sp"]):
+            continue
+        for n, parents in hir.walk(b["body"]):
+            if not is_exit_call(n):
+                continue
+            n_exit += 1
             v = hir.lit_value(n["args"][0])
-            out.add(fn, "exit status outside the shutdown phase is 1", v == "1", c.loc(n["sp"]),
-                    "status literal %s" % v, ("exit",))
+            out.add(b["d"], "exit status of a process::exit call is 1", v == "1", c.loc(n["sp"]),
+                    "status literal %s: the only sanctioned in-process termination is `exit` without `shutdown` (status 1); after "
+                    "shutdown the process ends by returning from main (status 0)" % v, ("exit-status",))
+            joined = False
+            chain = list(parents) + [n]
+            for i, p_ in enumerate(chain[:-1]):
+                if p_.get("k") != "Block":
+                    continue
+                for s_ in p_["stmts"]:
+                    if s_ is chain[i + 1]:
+                        break
+                    for fl in hir.nodes(s_, "ForLoop"):
+                        if any(aw.get("k") == "Await" and "JoinHandle" in c.tstr(aw["e"]["t"]) for aw in hir.nodes(fl["body"])):
+                            joined = True
+                    # handles awaited one by one
+                    if any(aw.get("k") == "Await" and "JoinHandle" in c.tstr(aw["e"]["t"]) for aw in hir.nodes(s_)):
+                        joined = True
+            out.add(b["d"], "process::exit is called only behind the join of the responder/broker tasks", joined, c.loc(n["sp"]),
+                    "process::exit ends the process while the responder task may still hold queued responses: a client that sends "
+                    "request(s) and `exit` in one write gets none of the responses", ("exit",))
+    if n_exit == 0:
+        # a server that never exits with status 1 cannot honour `exit` without `shutdown`
+        out.add("server", "an `exit` without `shutdown` ends the process with status 1", False, "",
+                "no process::exit call found in the server", ("exit",))
     # tokio::spawn
     sp = {}
     for b in c.bodies:
@@ -319,7 +331,7 @@ def rule_lifecycle(prog):
             rloc = c.loc(arms["Request"][0]["sp"])
             if name == "initialization" and li == 0:
                 out.add(item, "requests before initialize are rejected with ServerNotInitialized",
-                        codes == {"ServerNotInitialized"}, rloc, "codes used: %s" % sorted(map(str, codes)), ("codes",))
+                        codes - {"InvalidParams"} == {"ServerNotInitialized"}, rloc, "codes used: %s" % sorted(map(str, codes)), ("codes",))
             elif name == "initialization":
                 # between the initialize request and the initialized notification: a second initialize is an InvalidRequest, every
                 # other request still finds the server not initialized
@@ -391,8 +403,8 @@ def rule_lifecycle(prog):
                                     acodes == {"MethodNotFound"} and results == 0 and hir.is_wild(a["pat"]), c.loc(a["sp"]),
                                     "codes %s" % sorted(map(str, acodes)), ("codes",))
                         else:
-                            out.add(item, "%s is answered with a result" % meth, results == 1 and not acodes, c.loc(a["sp"]),
-                                    "", ("codes",))
+                            out.add(item, "%s is answered with a result" % meth, results == 1 and acodes <= {"InvalidParams"}, c.loc(a["sp"]),
+                                    "results %d, error codes %s" % (results, sorted(map(str, acodes))), ("codes",))
             # (c) exit handling
             exits = []
             exit_guarded = []
@@ -405,15 +417,95 @@ def rule_lifecycle(prog):
                 out.add(item, "`exit` after shutdown leaves the loop (process ends with status 0 after flushing)", bool(ok),
                         nloc, "exit branches: %s, process::exit calls: %d" % (exit_guarded, len(exits)), ("exit",))
             else:
-                ok = len(exits) == 1 and exit_guarded == ["exit"]
-                out.add(item, "`exit` without shutdown terminates with process::exit(1)", ok, nloc,
-                        "exit branches: %s" % exit_guarded, ("exit",))
+                # `exit` without shutdown: the phase is left at once and tells its caller so (a value that no other way out of the
+                # phase returns); run() turns that into status 1 behind the join (clause `flag` below, WHO-MAY exit)
+                vals = _ok_values(lbody)
+                exit_vals = _exit_values(c, arms["Notification"])
+                ok = None
+                if exits:
+                    ok = False   # reported by WHO-MAY (exit in the reader loop); here: not the sanctioned form
+                elif exit_guarded and all(k_ == "return-ok" for k_ in exit_guarded) and exit_vals and None not in exit_vals:
+                    all_exit = [x for lp_, _ in loops for x in _exit_nodes(c, _message_arms(c, lp_).get("Notification", []))]
+                    others = [v for v, n_ in vals if not any(n_ is x for x in all_exit)]
+                    ok = len(set(exit_vals)) == 1 and exit_vals[0] not in others and None not in others
+                elif exit_guarded and any(k_ in ("break", "other") for k_ in exit_guarded):
+                    ok = False
+                out.add(item, "`exit` without shutdown leaves the phase with a value no other way out returns", ok, nloc,
+                        "exit branches: %s, value(s) returned there: %s, values of the other Ok exits: %s" % (
+                            exit_guarded, exit_vals, sorted(set(str(v) for v, _ in vals))), ("exit",))
+            # (c2) params are client input: a value that does not deserialize is answered (request: InvalidParams) or dropped
+            #      (notification), never propagated with `?` - that ends the reader loop, the process terminates and neither this
+            #      request nor any later one is answered
+            for kind_ in ("Request", "Notification"):
+                for arm_ in arms[kind_]:
+                    for t_ in hir.nodes(arm_["body"], "Try"):
+                        inner = hir.strip(t_["e"])
+                        if inner.get("k") in ("Call", "MethodCall") and (hir.callee(inner) or "").endswith("serde_json::value::from_value"):
+                            out.add(item, "params of a %s that do not deserialize do not end the reader loop" % kind_.lower(), False,
+                                    c.loc(t_["sp"]), "`serde_json::from_value(params)?`: a %s with missing or malformed params makes the phase "
+                                    "return Err, the process exits with status 1 and %s" % (
+                                        kind_.lower(), "this request and all later ones stay unanswered" if kind_ == "Request"
+                                        else "all later requests stay unanswered"), ("one-response", "params"))
+                    for m_ in hir.nodes(arm_["body"], "Match"):
+                        sc_ = hir.strip(m_["scrut"])
+                        if sc_.get("k") in ("Call", "MethodCall") and (hir.callee(sc_) or "").endswith("serde_json::value::from_value"):
+                            err_arms = [a_ for a_ in m_["arms"] if any(v.endswith("Result::Err") for v in hir.pat_variants_all(a_["pat"])) or hir.is_wild(a_["pat"])]
+                            ok_ = bool(err_arms)
+                            why_ = ""
+                            if kind_ == "Request":
+                                cs_ = set()
+                                for a_ in err_arms:
+                                    for mc_ in hir.nodes(a_["body"], "MethodCall"):
+                                        ev_ = classify(mc_)
+                                        if ev_ and ev_[0] == "into":
+                                            cs_.add(ev_[2])
+                                ok_ = cs_ == {"InvalidParams"}
+                                why_ = "answer in the Err arm: %s" % sorted(map(str, cs_))
+                            out.add(item, "params of a %s that do not deserialize do not end the reader loop" % kind_.lower(), ok_,
+                                    c.loc(m_["sp"]), why_, ("one-response", "params"))
+            # InvalidParams is the answer to undeserializable params only
+            for rarm in arms["Request"]:
+                for mc_, parents_ in hir.walk(rarm["body"]):
+                    if mc_.get("k") != "MethodCall":
+                        continue
+                    ev_ = classify(mc_)
+                    if not (ev_ and ev_[0] == "into" and "InvalidParams" in str(ev_[2]).split("|")):
+                        continue
+                    in_err = False
+                    for i_, pr_ in enumerate(parents_):
+                        if pr_.get("k") == "Arm" and any(v.endswith("Result::Err") for v in hir.pat_variants_all(pr_["pat"])):
+                            mm_ = parents_[i_ - 1] if i_ > 0 else None
+                            sc_ = hir.strip(mm_["scrut"]) if mm_ and mm_.get("k") == "Match" else {}
+                            if sc_.get("k") in ("Call", "MethodCall") and (hir.callee(sc_) or "").endswith("serde_json::value::from_value"):
+                                in_err = True
+                    out.add(item, "InvalidParams answers params that do not deserialize, nothing else", in_err, c.loc(mc_["sp"]),
+                            "an InvalidParams error is produced outside the Err arm of the params' deserialization", ("codes", "params"))
             # Response arm: error
             rets = [n for rarm in arms["Response"] for n in hir.nodes(rarm["body"], "Ret")]
             out.add(item, "a Response from the client is an error", bool(rets), c.loc(arms["Response"][0]["sp"]), "", ("shape",))
         # (e) falls through to Ok(())
         out.add("server::phases::" + name, "end of input falls through to Ok(())", _tail_ok(prog, b), c.loc(b["sp"]),
                 "when the client's stream ends the phase must return normally", ("eof",))
+    # (i) ids: JSON-RPC / LSP request ids are integers *or strings*.  Message is an untagged enum: a request whose id does not fit
+    #     the type of Request.id does not match the Request variant, falls through to Notification (unknown fields are ignored) and is
+    #     dropped as an unknown notification - it never gets a response.
+    ra = prog.adts.get("lsp4spl::io::Request")
+    if ra is None:
+        out.missing("io::Request")
+    else:
+        idf = [f for v in ra["variants"] for f in v["fields"] if f["name"] == "id"]
+        if not idf:
+            out.missing("io::Request.id")
+        else:
+            ts = c.tstr(idf[0]["t"])
+            tt = c.ty(idf[0]["t"])
+            holds_str = any(w in ts for w in ("String", "str", "serde_json::Value", "Cow<"))
+            if not holds_str and tt["k"] == "adt" and tt["p"] in prog.adts:
+                holds_str = any(any(w in c.tstr(f["t"]) for w in ("String", "str", "serde_json::Value", "Cow<"))
+                                for v in prog.adts[tt["p"]]["variants"] for f in v["fields"])
+            out.add("io::Request.id", "a request id of either JSON-RPC kind (integer, string) is representable", holds_str,
+                    c.loc(ra["sp"]), "Request.id is `%s`: a request with a string id (legal in JSON-RPC 2.0 and LSP) does not deserialize as "
+                    "Request, is taken for a notification and never answered" % ts, ("ids",))
     # (d) run(): senders are dropped/moved before awaiting the tasks
     run = [b for b in c.bodies if b["d"] == "server::LanguageServer::run"]
     if not run:
@@ -431,6 +523,53 @@ def rule_lifecycle(prog):
             join_i = i
     out.add("server::LanguageServer::run", "awaits the spawned tasks before returning", join_i is not None, c.loc(run["sp"]),
             "responder and broker must be joined so that queued responses are written", ("join",))
+    # (d2) flag: what initialization / main report about an `exit` without shutdown decides (i) whether the following phases
+    #      run at all and (ii) the exit status behind the join
+    flags = set()
+    phase_calls = []
+    for s_ in seq:
+        for n_, parents_ in hir.walk(s_):
+            if n_.get("k") == "Call" and (hir.callee(n_) or "") in ("lsp4spl::server::phases::initialization", "lsp4spl::server::phases::main",
+                                                                   "lsp4spl::server::phases::shutdown"):
+                phase_calls.append((last(hir.callee(n_)), n_, parents_, s_))
+    for nm_, n_, parents_, s_ in phase_calls:
+        if nm_ == "shutdown":
+            continue
+        tgt = None
+        if s_.get("k") == "Let" and s_["pat"].get("k") == "Binding":
+            tgt = "%s#%s" % (s_["pat"]["name"], s_["pat"]["id"])
+        for pr_ in parents_:
+            if pr_.get("k") == "Assign":
+                tgt = place(pr_["l"])
+        if tgt:
+            flags.add(tgt)
+
+    def mentions_flag(e):
+        return any(place(x) in flags for x in hir.nodes(e, "Path"))
+
+    if phase_calls and flags:
+        for nm_, n_, parents_, s_ in phase_calls:
+            if nm_ == "initialization":
+                continue
+            guarded = any(pr_.get("k") == "If" and mentions_flag(pr_["cond"]) and hir.strip(pr_["cond"]).get("k") == "Unary"
+                          for pr_ in parents_)
+            out.add("server::LanguageServer::run", "phase `%s` is entered only if no `exit` was received before" % nm_, guarded,
+                    c.loc(n_["sp"]), "after an `exit` without shutdown the server goes on reading and serving messages", ("exit", "flag"))
+        ex_ok = False
+        ex_loc = c.loc(run["sp"])
+        for i, s_ in enumerate(seq):
+            for n_, parents_ in hir.walk(s_):
+                if is_exit_call(n_):
+                    ex_loc = c.loc(n_["sp"])
+                    under = [pr_ for pr_ in parents_ if pr_.get("k") == "If" and mentions_flag(pr_["cond"])
+                             and hir.strip(pr_["cond"]).get("k") != "Unary"]
+                    ex_ok = bool(under) and join_i is not None and i > join_i
+        out.add("server::LanguageServer::run", "an `exit` without shutdown reported by a phase ends the process with status 1 behind the join",
+                ex_ok, ex_loc, "run() must call process::exit(1) under the flag the phases return, after the tasks were awaited; "
+                "without it the process ends with status 0", ("exit", "flag"))
+    elif not any(is_exit_call(n_) for b_ in c.bodies for n_ in hir.nodes(b_["body"], "Call")):
+        out.add("server::LanguageServer::run", "an `exit` without shutdown reported by a phase ends the process with status 1 behind the join",
+                False, c.loc(run["sp"]), "no flag and no process::exit", ("exit", "flag"))
     senders = {}
     for i, s in enumerate(seq):
         if s.get("k") == "Let":
@@ -547,6 +686,74 @@ def _exit_branches(c, narm):
                     res.append(kind_of(a["body"]))
                 elif a.get("guard") is not None and tests_exit(a["guard"]):
                     res.append(kind_of(a["body"]))
+    return res
+
+
+def _ok_values(body):
+    """(literal value or None, node) of every `Ok(<v>)` a phase function ends with: `return Ok(v)` and the tail expression."""
+    res = []
+
+    def okv(e):
+        e = hir.strip(e)
+        if e.get("k") == "Call":
+            d = hir.path_def(e["f"])
+            if d and last(d.get("ctor_of", "")) == "Ok" and e["args"]:
+                a = hir.strip(e["args"][0])
+                if a.get("k") == "Lit":
+                    return (str(a["lit"].get("v")),)
+                if a.get("k") == "Tup" and not a.get("es"):
+                    return ("()",)
+                return (None,)
+        return None
+    for r in hir.nodes(body["body"], "Ret"):
+        if r.get("e"):
+            v = okv(r["e"])
+            if v:
+                res.append((v[0], r))
+    tail = _async_tail(body)
+    if tail is not None:
+        v = okv(tail)
+        if v:
+            res.append((v[0], tail))
+    return res
+
+
+def _exit_nodes(c, narms):
+    """Ret nodes under the `Exit::METHOD` test of the Notification arms"""
+    res = []
+
+    def tests_exit(cond):
+        for bn in hir.nodes(hir.strip(cond), "Binary"):
+            if bn["op"] == "==" and "Exit" in (method_of(c, bn["l"]), method_of(c, bn["r"])):
+                return True
+        return False
+    for narm in narms:
+        bodies = []
+        if narm.get("guard") is not None and tests_exit(narm["guard"]):
+            bodies.append(narm["body"])
+        for n in hir.nodes(narm["body"]):
+            if n.get("k") == "If" and tests_exit(n["cond"]):
+                bodies.append(n["then"])
+            if n.get("k") == "Match":
+                for a in n["arms"]:
+                    pc = _pat_const(a["pat"])
+                    if (pc and method_of(c, pc) == "Exit") or (a.get("guard") is not None and tests_exit(a["guard"])):
+                        bodies.append(a["body"])
+        for b_ in bodies:
+            res += list(hir.nodes(b_, "Ret"))
+    return res
+
+
+def _exit_values(c, narms):
+    res = []
+    for r in _exit_nodes(c, narms):
+        e = hir.strip(r["e"]) if r.get("e") else {}
+        v = None
+        if e.get("k") == "Call" and e.get("args"):
+            a = hir.strip(e["args"][0])
+            if a.get("k") == "Lit":
+                v = str(a["lit"].get("v"))
+        res.append(v)
     return res
 
 
